@@ -135,6 +135,7 @@ package sio
 //@   ensures[C15] nocaptain: err == nil ==> !("captain" in changed)
 //@   ensures[C15] deletedshape: err == nil ==> forall k string :: (k in changed) && changed[k].Deleted ==> changed[k].State == nil && changed[k].SpecSrc == nil
 //@   ensures[C15] subset: err == nil ==> forall k string :: (k in changed) ==> old(k in c.changed)
+//@   ensures[C15] remembered: err == nil ==> forall k string :: (k in changed) && !changed[k].Deleted ==> (k in c.previous)
 //@   ensures[C15] forgotten: err == nil ==> forall k string :: (k in changed) && changed[k].Deleted ==> !(k in c.previous)
 //@   loop 0 invariant wfChanged(c) && changed != nil && fresh(changed) && c.changed != nil && c.previous != nil
 //@   loop 0 invariant[C15] forall k string :: seen(0)[k] ==> !(k in c.changed)
@@ -148,6 +149,7 @@ package sio
 //@   loop 1 invariant[C15] forall k string :: !(k in c.changed)
 //@   loop 1 invariant[C15] forall k string :: (k in changed) ==> atloop(k in changed)
 //@   loop 1 invariant[C15] forall k string :: seen(1)[k] && (k in changed) && changed[k].Deleted ==> !(k in c.previous)
+//@   loop 1 invariant[C15] forall k string :: seen(1)[k] && (k in changed) && !changed[k].Deleted ==> (k in c.previous)
 
 //@ func (*Crew).RunMachines returns acc, err
 //@   safety C14
